@@ -66,6 +66,11 @@ def gen_case(rng):
     conflict = None
     if rng.random() < 0.3:
         conflict = {"dep": rng.choice(deps), "kind": rng.choice(["file", "dir", "foreign-symlink"]), "before": rng.randrange(len(hist))}
+    if len(hist) >= 2 and rng.random() < 0.15:
+        # before a later invocation: `cond clean` was killed right after it had removed the index (it removes the index
+        # first), then `cond gc` collected the - now unrecorded - version directories; combine outputs that survived still
+        # hold Conductor's links to versions that no longer exist
+        hist[rng.randrange(1, len(hist))]["after_killed_clean_and_gc"] = True
     return {"tasks": gen.dump(tasks), "scripts": scripts, "history": hist, "conflict": conflict, "comb": comb["id"], "sib": sib["id"], "pkgdir_symlink": rng.random() < 0.25, "pkg_index": rng.randrange(16), "condout_symlink": rng.random() < 0.2, "odd_root": rng.random() < 0.25}
 
 
@@ -111,6 +116,12 @@ def eval_case(case):
                         open(os.path.join(tgt, "mine"), "w").write("precious")
                         os.symlink(tgt, ent)
                     conflict_active = {"entry": ent, "kind": conflict["kind"], "hash": realrun.tree_hash(ent), "dep": conflict["dep"]}
+            if inv.get("after_killed_clean_and_gc"):
+                idx = os.path.join(pr.root, "cond-out", "version_index.sqlite")
+                if os.path.exists(idx):
+                    os.unlink(idx)
+                    pr.cond(["gc"], timeout=60)
+                    R["c18_runs_after_a_killed_clean_and_gc"] = R.get("c18_runs_after_a_killed_clean_and_gc", 0) + 1
             exps = [t["id"] for t in tasks if t["kind"] == "run_experiment"]
             where_before = {x: pr.where(x) for x in exps}
             argv = ["run", inv["target"]] + (["-j", str(inv["jobs"])] if inv["jobs"] else []) + (["--again"] if inv["again"] else [])
